@@ -700,6 +700,28 @@ def txt_api(text):
     if not m: refuse(W, f"TryFrom<&str>: {b[:300]}")
     return {'attrSep': attr_sep, 'attrInsert': attr_ins, 'longSep': long_sep, 'longKv': long_kv, 'longInsert': long_ins, 'mapSep': map_sep, 'chunkMinus': int(m.group(1) or 0)}
 
+# ------------------------------------------------------------------ simple-mdns: receive buffers, and a reply that cannot be serialised
+def service_shape(texts):
+    """texts: {'rs','ra','ds','da'} compact sources of the two responders and the two discovery services"""
+    W = 'simple-mdns: the receive buffers of the service loops; responder_loop and an unserialisable reply'
+    sizes = []
+    for k, fn in (('rs', 'responder_loop'), ('ra', 'responder_loop'), ('ds', 'receive_packets_loop'), ('da', 'execution_loop')):
+        if texts[k] is None: refuse(W, f"{k}: file not found")
+        body = fn_body(texts[k], fn, W)
+        m = re.findall(r'let mut recv_buffer=\[0u8;(\w+)\];', body)
+        if len(m) != 1 or not re.fullmatch(r'\d+', m[0]): refuse(W, f"{k}: the receive buffer of {fn} is not one array of a literal size")
+        if len(re.findall(r'recv_from\(&mut recv_buffer\)', body)) != 1: refuse(W, f"{k}: {fn} does not receive into that buffer exactly once")
+        sizes.append(int(m[0]))
+    build = []
+    for k, aw in (('rs', False), ('ra', True)):
+        body = fn_body(texts[k], 'responder_loop', W)
+        call = r'reply_packet\.build_bytes_vec_compressed\(\)'
+        if len(re.findall(call, body)) != 1: refuse(W, f"{k}: expected exactly one build_bytes_vec_compressed of the reply")
+        if re.search(r'let reply=' + call + r'\?;', body): build.append('propagate')
+        elif re.search(r'let reply=match ' + call + r'\{Ok\((\w+)\)=>\1,Err\((\w+)\)=>\{log::(error|warn)!\([^;{}]*\);continue;\}\};', body): build.append('log')
+        else: refuse(W, f"{k}: treatment of a reply that cannot be serialised not recognised")
+    return {'buffers': sizes, 'build': build}
+
 # ------------------------------------------------------------------ name.rs: the relations between names
 def name_relations(text):
     W = 'name.rs: is_link_local / is_subdomain_of / without'
@@ -852,6 +874,7 @@ def generate(repo):
         if files['inst'] is None or files['conv'] is None: refuse('into_records', 'file not found')
         return into_records(files['inst'], files['conv'])
     ir = attempt('mdns.into_records', _ir)
+    ssh = attempt('mdns.service_shape', lambda: service_shape({k: files[k] for k in ('rs', 'ra', 'ds', 'da')}))
     npz = attempt('name.parse', need('name', name_parse))
     files['txt'] = read_keep('simple-dns/src/dns/rdata/txt.rs')
     txa = attempt('txt.api', need('txt', txt_api))
@@ -998,6 +1021,9 @@ def generate(repo):
           "def txtLongInsert : Option String := " + ('none' if txa is None else 'some ' + q(txa['longInsert'])),
           "def txtMapSep : Option Nat := " + optn(g(txa, 'mapSep')),
           "def txtChunkMinus : Option Nat := " + optn(g(txa, 'chunkMinus')),
+          "/-- the receive buffers of the four service loops (sync responder, tokio responder, sync discovery, tokio discovery), and what the two responder loops do with a reply that cannot be serialised -/",
+          "def serviceBuffers : Option (List Nat) := " + ('none' if ssh is None else 'some [' + ', '.join(str(x) for x in ssh['buffers']) + ']'),
+          "def responderBuildPolicy : Option (List String) := " + ('none' if ssh is None else 'some ' + strs(ssh['build'])),
           "/-- `From<QTYPE> for u16` and `From<QCLASS> for u16` (the codes the writers emit): (variant, code; `none` for the arm that converts the wrapped TYPE / CLASS) -/",
           "def qtypeToCode : Option (List (String × Option Nat)) := " + ('none' if qo is None else 'some [' + ', '.join(f'({q(a)}, {"none" if b == "inner" else "some " + b})' for a, b in qo['QTYPE']) + ']'),
           "def qclassToCode : Option (List (String × Option Nat)) := " + ('none' if qo is None else 'some [' + ', '.join(f'({q(a)}, {"none" if b == "inner" else "some " + b})' for a, b in qo['QCLASS']) + ']'),
